@@ -108,7 +108,7 @@ add(Contract("yarl._url:_encode_host", [("host", STR), ("validate_host", BOOL)],
              raises=(ValueError,), opaque=True, shape=STR, ensures=spec_url.encode_host_ensures,
              props=("C16", "C03", "C09"), note="canonical host: IP literal / ASCII lower case / IDNA; brackets; validation"))
 add(Contract("yarl._path:normalize_path", [("path", STR)], spec=spec_path.normalize_path,
-             opaque=True, shape=STR, props=("C15", "C14", "C19")))
+             opaque=True, shape=STR, congruent=True, props=("C15", "C14", "C19")))
 add(Contract("yarl._url:encode_url", [("url_str", STR)], spec=spec_url.encode_url, raises=(ValueError,),
              transparent=("yarl._parse:make_netloc",), shards=16,
              props=("WIP",)))
@@ -257,6 +257,9 @@ _ALLQ = CONST(*PY_QUOTERS.values())
 add(Lemma(spec_quote.lemma_canonical_is_fixed, [("quoter", _ALLQ), ("B", BYTES), ("p", INT)],
           requires=spec_quote.requoting, props=("C03", "C04"),
           note="a canonical unit is re-emitted unchanged by every re-quoting quoter"))
+add(Lemma(spec_quote.lemma_no_new_slash, [("quoter", _ALLQ), ("B", BYTES), ("p", INT)],
+          requires=spec_quote.slash_stable, props=("C13",),
+          note="quoting never creates a path separator (used at the call sites of PATH_QUOTER in with_name / with_suffix)"))
 add(Lemma(spec_quote.lemma_skippable_is_fixed, [("quoter", _ALLQ), ("B", BYTES), ("p", INT)],
           requires=spec_quote.in_range, props=("C01", "C04", "C05"),
           note="the compiled quoter's fast path: skippable characters are their own units"))
@@ -298,6 +301,23 @@ add(Lemma(spec_parse.lemma_split_unsplit,
           requires=spec_parse.parts_wellformed, props=("WIP3",),
           transparent=("yarl._parse:split_url", "yarl._parse:unsplit_result"),
           note="split_url(unsplit_result(parts)) == parts for well-formed parts"))
+
+# ---------------------------------------------------------------- path algebra at the string level (C13)
+for _name in ("raw_name", "raw_suffix", "parent"):
+    add(Contract(f"yarl._url:URL.{_name}", [("self", URLT)], spec=getattr(spec_url, _name), split_model="plist",
+                 props=("C13", "C19")))
+add(Contract("yarl._url:URL._with_raw_name", [("self", URLT), ("name", STR), ("keep_query", BOOL), ("keep_fragment", BOOL)],
+             spec=spec_url.with_raw_name, requires=spec_url.no_slash, raises=(ValueError,), split_model="plist",
+             props=("C13", "C11", "C19")))
+add(Contract("yarl._url:URL.with_name", [("self", URLT), ("name", UNION(STR, CONST(1))), ("keep_query", BOOL), ("keep_fragment", BOOL)],
+             spec=spec_url.with_name, raises=(TypeError, ValueError), split_model="plist", props=("C13", "C11", "C19")))
+add(Contract("yarl._url:URL.with_suffix", [("self", URLT), ("suffix", UNION(STR, CONST(1))), ("keep_query", BOOL), ("keep_fragment", BOOL)],
+             spec=spec_url.with_suffix, raises=(TypeError, ValueError), split_model="plist", props=("C13", "C11", "C19")))
+
+# ---------------------------------------------------------------- reference resolution (C14)
+add(Contract("yarl._url:URL.join", [("self", URLT), ("url", UNION(URLT, CONST(None, "x")))], spec=spec_url.join,
+             requires=spec_url.join_requires, raises=(TypeError,), split_model="plist", props=("C14", "C02", "C19"),
+             note="RFC 3986 5.2.2 on the encoded components; bases of the known finding (no authority, rootless path) excluded"))
 
 # ---------------------------------------------------------------- query operations (C12)
 import collections as _collections
